@@ -527,13 +527,16 @@ func searchOne(c Case, rep *hx.Report, check bool) (hist []outcome) {
 // ---------- correspondence ----------
 
 type corr struct {
-	modelrun string
-	fields   []string
-	nilsens  map[string]bool
-	env      string
-	reqs     []string
-	want     []string // expected answer ("" = only must not be a driver error), parallel to reqs
-	class    []string
+	modelrun    string
+	fields      []string
+	nilsens     map[string]bool
+	frameBad    []hx.Mismatch
+	runMut      map[string]bool // Model/Reuse.run_mutable: the generated may_run + method-mutated objects + arrays.locals
+	frameChecks int
+	env         string
+	reqs        []string
+	want        []string // expected answer ("" = only must not be a driver error), parallel to reqs
+	class       []string
 }
 
 func (k *corr) add(class, req, want string) {
@@ -682,6 +685,28 @@ func (k *corr) stepExec(ip *interp.Interpreter, s RunSpec, run bool, tag string)
 	res = outcome{Out: out.String(), Status: st}
 	if rerr != nil {
 		res.Err = rerr.Error()
+	}
+	// the frame hypothesis of the theorems, checked on this run: executeAll changed no field outside
+	// run_mutable and did not resize globals / the global arrays
+	after := k.dump(ip)
+	k.frameChecks++
+	var bad []string
+	for _, f := range k.fields {
+		if f == "stdin" || f == "output" || f == "errorOutput" {
+			continue // rendered as the CONTENT of the caller's reader/writers, which a run consumes / produces
+		}
+		if after[f] != d3[f] && !k.runMut[f] {
+			bad = append(bad, f)
+		}
+	}
+	for _, f := range []string{"globals", "arrays"} {
+		if strings.Fields(after[f])[0] != strings.Fields(d3[f])[0] {
+			bad = append(bad, "len("+f+")")
+		}
+	}
+	if len(bad) > 0 {
+		k.frameBad = append(k.frameBad, hx.Mismatch{Class: "run-frame", Input: fmt.Sprintf("%+v", s),
+			Impl: "executeAll changed " + strings.Join(bad, " "), Model: "a run changes only fields of run_mutable and keeps len(globals), len(global arrays)"})
 	}
 	return res, true, cfgline, entry
 }
@@ -863,13 +888,17 @@ func main() {
 
 	k := &corr{modelrun: modelrun}
 	if modelrun != "" {
-		ans, err := hx.ModelEval(modelrun, []string{"fields", "nilsens"})
-		if err != nil || !strings.HasPrefix(ans[0], "ok") || !strings.HasPrefix(ans[1], "ok") {
+		ans, err := hx.ModelEval(modelrun, []string{"fields", "nilsens", "runmutable"})
+		if err != nil || !strings.HasPrefix(ans[0], "ok") || !strings.HasPrefix(ans[1], "ok") || !strings.HasPrefix(ans[2], "ok") {
 			rep.HarnessError("modelrun fields/nilsens: %v %v", err, ans)
 			rep.Write(out)
 			return
 		}
 		k.fields = strings.Fields(ans[0])[1:]
+		k.runMut = map[string]bool{}
+		for _, f := range strings.Fields(ans[2])[1:] {
+			k.runMut[f] = true
+		}
 		k.nilsens = map[string]bool{}
 		for _, f := range strings.Fields(ans[1])[1:] {
 			k.nilsens[f] = true
@@ -913,6 +942,11 @@ func main() {
 	}
 
 	if modelrun != "" {
+		rep.CorrEvals += k.frameChecks
+		rep.Hist["step:run-frame"] += k.frameChecks
+		for _, m := range k.frameBad {
+			rep.Mismatch(m)
+		}
 		if os.Getenv("C14_DUMPREQ") != "" {
 			os.WriteFile(os.Getenv("C14_DUMPREQ"), []byte(strings.Join(k.reqs, "\n")+"\n"), 0o644)
 		}
